@@ -307,11 +307,23 @@ pub fn run(s: &mut Session, ctx: &Ctx) {
     s.tag_n("sa-runs", cases);
 
     // ---- distinct_colors: n colours out, fixed ones are the prefix (real RNG; 300k iterations) ----
-    let runs = if ctx.thorough { 6 } else { 2 };
+    let runs = if ctx.thorough { 10 } else { 4 };
     for i in 0..runs {
         let n = 2 + i % 3;
         let kf = i % (n + 1);
-        let fixed: Vec<Color> = (0..kf).map(|_| gen::color8(&mut rng)).collect();
+        let mut fixed: Vec<Color> = (0..kf).map(|_| gen::color8(&mut rng)).collect();
+        // every other run: the same fixed colour more than once (adjacent and not)
+        let (n, kf) = if i % 2 == 1 {
+            let c = gen::color8(&mut rng);
+            fixed = match i % 3 {
+                0 => vec![c.clone(), c.clone()],
+                1 => vec![c.clone(), c.clone(), gen::color8(&mut rng), c.clone()],
+                _ => vec![c.clone(), gen::color8(&mut rng), c.clone()],
+            };
+            (fixed.len() + (i / 2) % 2, fixed.len())
+        } else {
+            (n, kf)
+        };
         let m = if i % 2 == 0 { DistanceMetric::CIE76 } else { DistanceMetric::CIEDE2000 };
         let fx = fixed.clone();
         let res = guard(move || pastel::distinct::distinct_colors(n, m, fx, &mut |_| {}));
